@@ -197,7 +197,9 @@ def nontrivial(job):
 
 def run(tier, seed):
     rng = random.Random(seed * 104729 + 8)
-    mcs = [core.mc("MC_PortSem"), core.mc("MC_PortObj", "MC_PortObj" if tier == "thorough" else "MC_PortObj_d3", workers=8)]
+    mcs = [core.mc("MC_PortSem"), core.mc("MC_PortObj", "MC_PortObj" if tier == "thorough" else "MC_PortObj_d3", workers=8),
+           # interval algebra = set algebra at the real port range 1..65535, symbolically (Apalache), with its vacuity guard
+           core.apalache("PortLemma", "Lemma"), core.apalache("PortLemma", "Adjacent", expect_violation=True)]
     hists, gen = core.generate("MC_PortObj", "MC_PortObj_gen" if tier == "quick" else "MC_PortObj_gen_thorough")
     rs = random.Random(seed + 2)
     frac = 0.2 if tier == "quick" else 0.03
